@@ -306,6 +306,17 @@ class HistWorld(World):
                 raise Violation("restore-wrong-field", f"{what}: v ({pt}) after Set_Iter({i}) differs from the field saved then")
             if sa and sa0 and not np.array_equal(st[pt][2], snap["state"][pt][2], equal_nan=True):
                 raise Violation("restore-wrong-field", f"{what}: a ({pt}) after Set_Iter({i}) differs from the field saved then")
+            # rates that the scheme active now integrates from but that iteration i does not hold (it was saved under a
+            # scheme without them): whatever the convention, what Set_Iter(i) leaves there is a function of i alone,
+            # not of what the simulation went through before the restore
+            for j, used, held, nm in ((1, sv, sv0, "v"), (2, sa, sa0, "a")):
+                if used and not held:
+                    key = (i, pt, nm, st[pt][j].shape)
+                    seen = self.__dict__.setdefault("_restored_rates", {})
+                    if key in seen and not np.array_equal(seen[key], st[pt][j], equal_nan=True):
+                        raise Violation("restore-depends-on-previous-state", f"{what}: {nm} ({pt}) after Set_Iter({i}) differs from what an earlier Set_Iter({i}) restored (max|diff| {np.max(np.abs(seen[key] - st[pt][j])):.3e}): iteration {i} holds no {nm}, and what is left there comes from the state before the restore")
+                    seen.setdefault(key, np.array(st[pt][j]))
+                    self.ctx.probe("restore_of_rates_the_iteration_does_not_hold")
             self.ctx.checked()
         with self.ctx.sut():
             md = mesh_digest(sim.mesh)
